@@ -685,11 +685,12 @@ class CodeBuilder:
         else:
             config_cls = cls.__dict__.get("Config", BaseConfig)
         if not issubclass(config_cls, BaseConfig):
-            config_cls = type(
-                "Config",
-                (BaseConfig, config_cls),
-                {**BaseConfig.__dict__, **config_cls.__dict__},
-            )
+            # options of a plain Config class, the inherited ones included
+            # (the nearest class wins), over the defaults of BaseConfig
+            options = dict(BaseConfig.__dict__)
+            for klass in reversed(config_cls.__mro__[:-1]):
+                options.update(klass.__dict__)
+            config_cls = type("Config", (BaseConfig, config_cls), options)
         return config_cls
 
     def get_discriminator(
